@@ -4,6 +4,7 @@ Core Lean only.
 -/
 import WzVerif.Model.Local
 namespace Wz.Local
+open Wz.Gen.LocalOps
 
 /-- every reference held by a context points below the allocation counter -/
 def WF (w : World) : Prop := ∀ c v id, w.ctxs c v = some id → id < w.next
@@ -48,13 +49,13 @@ theorem worldInv_mutate {w0 w : World} {c v : Nat} (h : WorldInv w0 c v w) {id :
   have hne : i ≠ id := by omega
   simp [mutate, hne, h.heapOld i hi]
 
-theorem worldInv_bind {w0 w : World} {c v : Nat} (h : WorldInv w0 c v w) {id : Nat}
-    (hid : id < w.next) : WorldInv w0 c v (bind w c v id) := by
+theorem worldInv_bindVar {w0 w : World} {c v : Nat} (h : WorldInv w0 c v w) {id : Nat}
+    (hid : id < w.next) : WorldInv w0 c v (bindVar w c v id) := by
   refine ⟨h.heapOld, ?_, h.nextLe, h.nctxEq, ?_⟩
   · intro c' v' hne
-    simp [bind, hne, h.ctxOther c' v' hne]
+    simp [bindVar, hne, h.ctxOther c' v' hne]
   · intro c' v' id' hid'
-    simp only [bind] at hid'
+    simp only [bindVar] at hid'
     split at hid'
     · cases hid'; exact hid
     · exact h.wf c' v' id' hid'
@@ -133,26 +134,29 @@ theorem stepOp_inv {w0 : World} {c v : Nat} (a : Args) {o : List Reg} {f : Frame
     obtain ⟨id, h1, h2⟩ := h.ownedNew r hr
     rw [h1]
     refine ⟨?_, h.regsLt, h.ownedNew⟩
-    exact worldInv_mutate h.toWorldInv h2 _
+    dsimp only
+    apply worldInv_mutate h.toWorldInv h2
   | delItem r =>
     simp only [stepOp, ownedAfter]
     have hr : r ∈ o := by simpa [opOk] using hok
     obtain ⟨id, h1, h2⟩ := h.ownedNew r hr
     rw [h1]
     refine ⟨?_, h.regsLt, h.ownedNew⟩
-    exact worldInv_mutate h.toWorldInv h2 _
+    dsimp only
+    apply worldInv_mutate h.toWorldInv h2
   | append r =>
     simp only [stepOp, ownedAfter]
     have hr : r ∈ o := by simpa [opOk] using hok
     obtain ⟨id, h1, h2⟩ := h.ownedNew r hr
     rw [h1]
     refine ⟨?_, h.regsLt, h.ownedNew⟩
-    exact worldInv_mutate h.toWorldInv h2 _
+    dsimp only
+    apply worldInv_mutate h.toWorldInv h2
   | store r =>
     simp only [stepOp, ownedAfter]
     split
     · rename_i id hid
-      exact ⟨worldInv_bind h.toWorldInv (h.regsLt r id hid), h.regsLt, h.ownedNew⟩
+      exact ⟨worldInv_bindVar h.toWorldInv (h.regsLt r id hid), h.regsLt, h.ownedNew⟩
     · exact h.toWorldInv
   | assumeContains r b =>
     simp only [stepOp, ownedAfter]
@@ -304,5 +308,162 @@ theorem run_inv {w : World} (hw : WF w) :
     intro c' v' hc' hnt
     rw [g3 c' v' (by omega) (fun x hx => hnt x (List.mem_cons_of_mem _ hx))]
     exact h3 c' v' hc' (hnt e (by simp))
+
+/-! ### the generated method bodies refine a per-context immutable reference -/
+
+set_option linter.unusedSimpArgs false
+
+def kvOf : Option Obj → List (Nat × Nat)
+  | some (.dict kv) => kv
+  | _ => []
+
+def xsOf : Option Obj → List Nat
+  | some (.list xs) => xs
+  | _ => []
+
+/-- the methods whose bodies are translated -/
+inductive Method where
+  | setattr | delattr | getattr | iter | release | push | pop | top | srelease
+deriving DecidableEq, Repr
+
+def Method.prog : Method → Prog
+  | .setattr => localSetattr
+  | .delattr => localDelattr
+  | .getattr => localGetattr
+  | .iter => localIter
+  | .release => localRelease
+  | .push => stackPush
+  | .pop => stackPop
+  | .top => stackTop
+  | .srelease => stackRelease
+
+def Method.onStack : Method → Bool
+  | .push | .pop | .top | .srelease => true
+  | _ => false
+
+/-- the reference semantics: a pure function on the immutable payload one context sees -/
+def refCall (m : Method) (a : Args) (o : Option Obj) : Option Obj × Res :=
+  match m with
+  | .setattr => (some (.dict (dictSet (kvOf o) a.key a.val)), .none)
+  | .delattr =>
+    match dictGet (kvOf o) a.key with
+    | some _ => (some (.dict (dictDel (kvOf o) a.key)), .none)
+    | none => (o, .attrError)
+  | .getattr => (o, match dictGet (kvOf o) a.key with | some x => .val x | none => .attrError)
+  | .iter => (o, .items (kvOf o))
+  | .release => (some (.dict []), .none)
+  | .push => (some (.list (xsOf o ++ [a.val])), .list (xsOf o ++ [a.val]))
+  | .pop =>
+    match (xsOf o).getLast? with
+    | some x => (some (.list (xsOf o).dropLast), .val x)
+    | none => (o, .none)
+  | .top => (o, match (xsOf o).getLast? with | some x => .val x | none => .none)
+  | .srelease => (some (.list []), .none)
+
+/-- the payload has the kind the method expects (a `Local` holds a dict, a `LocalStack` a list) -/
+def Typed (m : Method) (o : Option Obj) : Prop :=
+  o = none ∨ (if m.onStack then ∃ xs, o = some (.list xs) else ∃ kv, o = some (.dict kv))
+
+theorem refine_call (w : World) (c v : Nat) (a : Args) (m : Method) (ht : Typed m (obs w c v)) :
+    obs (runProg w c v a m.prog).1 c v = (refCall m a (obs w c v)).1 ∧
+    (runProg w c v a m.prog).2 = (refCall m a (obs w c v)).2 := by
+  unfold obs at *
+  cases h : w.ctxs c v with
+  | none =>
+    cases m <;>
+    simp [Method.prog, refCall, localSetattr, localDelattr, localGetattr, localIter, localRelease,
+      stackPush, stackPop, stackTop, stackRelease, runProg, runPath, stepOp, h, alloc, mutate,
+      bindVar, setReg, kvOf, xsOf, Obj.empty, objContains, objEmpty, dictGet]
+  | some id =>
+    rw [h] at ht
+    cases ho : w.heap id with
+    | dict kv =>
+      cases m <;> try (exfalso; simp [Typed, Method.onStack, ho] at ht; done)
+      · simp [Method.prog, refCall, localSetattr, runProg, runPath, stepOp, h, ho, alloc, mutate,
+          bindVar, setReg, kvOf]
+      · cases hg : dictGet kv a.key <;>
+        simp [Method.prog, refCall, localDelattr, runProg, runPath, stepOp, h, ho, hg, alloc, mutate,
+          bindVar, setReg, kvOf, objContains]
+      · cases hg : dictGet kv a.key <;>
+        simp [Method.prog, refCall, localGetattr, runProg, runPath, stepOp, h, ho, hg, alloc, mutate,
+          bindVar, setReg, kvOf, objContains]
+      · simp [Method.prog, refCall, localIter, runProg, runPath, stepOp, h, ho, setReg, kvOf]
+      · simp [Method.prog, refCall, localRelease, runProg, runPath, stepOp, h, ho, alloc, bindVar,
+          setReg, Obj.empty]
+    | list xs =>
+      cases m <;> try (exfalso; simp [Typed, Method.onStack, ho] at ht; done)
+      · simp [Method.prog, refCall, stackPush, runProg, runPath, stepOp, h, ho, alloc, mutate,
+          bindVar, setReg, xsOf]
+      · cases hx : xs.getLast? with
+        | none =>
+          have : xs = [] := List.getLast?_eq_none_iff.mp hx
+          simp [Method.prog, refCall, stackPop, runProg, runPath, stepOp, h, ho, this, setReg, xsOf,
+            objEmpty]
+        | some x =>
+          have hne : xs ≠ [] := by intro e; simp [e] at hx
+          have hemp : xs.isEmpty = false := by cases xs <;> simp_all
+          simp [Method.prog, refCall, stackPop, runProg, runPath, stepOp, h, ho, hx, hemp, alloc,
+            bindVar, setReg, xsOf, objEmpty]
+      · cases hx : xs.getLast? with
+        | none =>
+          have : xs = [] := List.getLast?_eq_none_iff.mp hx
+          simp [Method.prog, refCall, stackTop, runProg, runPath, stepOp, h, ho, this, setReg, xsOf,
+            objEmpty]
+        | some x =>
+          have hemp : xs.isEmpty = false := by cases xs <;> simp_all
+          simp [Method.prog, refCall, stackTop, runProg, runPath, stepOp, h, ho, hx, hemp,
+            setReg, xsOf, objEmpty]
+      · simp [Method.prog, refCall, stackRelease, runProg, runPath, stepOp, h, ho, alloc, bindVar,
+          setReg, Obj.empty]
+
+/-! ### proxies -/
+
+theorem resolve_attr_eq (w : World) (c v k : Nat) :
+    resolve w c (.attr v k) = match obs w c v with | some (.dict kv) => dictGet kv k | _ => none := by
+  unfold obs
+  cases h : w.ctxs c v with
+  | none =>
+    simp [resolve, localGetattr, runProg, runPath, stepOp, h, alloc, setReg, Obj.empty, objContains, dictGet]
+  | some id =>
+    cases ho : w.heap id with
+    | dict kv =>
+      cases hg : dictGet kv k <;>
+      simp [resolve, localGetattr, runProg, runPath, stepOp, h, ho, hg, setReg, objContains]
+    | list xs =>
+      by_cases hx : k ∈ xs
+      · simp [resolve, localGetattr, runProg, runPath, stepOp, h, ho, hx, setReg, objContains]
+      · simp [resolve, localGetattr, runProg, runPath, stepOp, h, ho, hx, setReg, objContains]
+
+theorem resolve_top_eq (w : World) (c v : Nat) :
+    resolve w c (.top v) = match obs w c v with | some (.list xs) => xs.getLast? | _ => none := by
+  unfold obs
+  cases h : w.ctxs c v with
+  | none =>
+    simp [resolve, stackTop, runProg, runPath, stepOp, h, alloc, setReg, Obj.empty, objEmpty]
+  | some id =>
+    cases ho : w.heap id with
+    | list xs =>
+      cases hx : xs.getLast? with
+      | none =>
+        have : xs = [] := List.getLast?_eq_none_iff.mp hx
+        simp [resolve, stackTop, runProg, runPath, stepOp, h, ho, this, setReg, objEmpty]
+      | some x =>
+        have hemp : xs.isEmpty = false := by cases xs <;> simp_all
+        simp [resolve, stackTop, runProg, runPath, stepOp, h, ho, hx, hemp, setReg, objEmpty]
+    | dict kv =>
+      cases kv with
+      | nil => simp [resolve, stackTop, runProg, runPath, stepOp, h, ho, setReg, objEmpty]
+      | cons x t => simp [resolve, stackTop, runProg, runPath, stepOp, h, ho, setReg, objEmpty]
+
+/-- the var a proxy reads -/
+def Proxy.var : Proxy → Nat
+  | .attr v _ => v
+  | .top v => v
+
+theorem resolve_congr {w w' : World} {c : Nat} (p : Proxy) (h : obs w' c p.var = obs w c p.var) :
+    resolve w' c p = resolve w c p := by
+  cases p with
+  | attr v k => simp only [Proxy.var] at h; rw [resolve_attr_eq, resolve_attr_eq, h]
+  | top v => simp only [Proxy.var] at h; rw [resolve_top_eq, resolve_top_eq, h]
 
 end Wz.Local
